@@ -244,7 +244,7 @@ def c_verifier_try_from_bytes(it, recv, a):
     X.append(("try", "OpeningKey::from_slice fails => Err"))
     chunks = Sym(VOpaque("chunks_exact", [idx, 8]).canon())
     # every 8-byte chunk read as a big-endian u64, in order (normal form: one map over the chunks)
-    m3 = Sym(VOpaque("map_each", [chunks, VOpaque("u64::from_be_bytes", [Sym(chunks.path + "[*]")])]).canon())
+    m3 = Sym(VOpaque("map_each", [chunks, VOpaque("be_u64", [Sym(chunks.path + "[*]")])]).canon())
     return VOpaque("Self::new", [VOpaque("to_vec", [label]), VOpaque("VerifierKey::from_slice", [vk]), VOpaque("OpeningKey::from_slice", [ok]),
                                  VOpaque("collected", [m3]), L[4], L[5]])
 
